@@ -12,6 +12,11 @@ from concurrent.futures import ThreadPoolExecutor
 TARGETS = ["text", "tokenizer", "keyval", "options", "path", "table", "dist", "interval", "formula", "numcalc"]
 RUNS = {"quick": 60000, "thorough": 1500000}
 ROUNDS = {"quick": 1, "thorough": 2}
+# the formula target runs at 60-200 executions/s once its corpus holds deeply nested 4 KiB inputs (every level of
+# ComputationTree::readFormula_ copies its sub-formula; ASan on a 1 GiB stack), against 1500-40000/s for the others:
+# its thorough budget is scaled down so that a round stays well inside the 2 h watchdog (a count, not a time limit)
+RUNS_SCALE = {"thorough": {"formula": 0.25}}
+MAX_LEN = {"formula": 1024}   # default 4096; the deterministic harness drives the 3000-level nestings
 
 
 def expand_seeds(verif, dest, target):
@@ -39,7 +44,7 @@ def fuzz_one(ctx, exe, target, runs, seed, workdir, corpus_root):
     env.update(ctx["asan_env"])
     env["ASAN_OPTIONS"] = "abort_on_error=1:detect_leaks=0:handle_abort=1:symbolize=1:allocator_may_return_null=1"
     env["FUZZ_TARGET"] = target
-    cmd = [exe, "-runs=%d" % runs, "-max_len=4096", "-timeout=60", "-rss_limit_mb=2560", "-malloc_limit_mb=1024",
+    cmd = [exe, "-runs=%d" % runs, "-max_len=%d" % MAX_LEN.get(target, 4096), "-timeout=60", "-rss_limit_mb=2560", "-malloc_limit_mb=1024",
            "-dict=" + os.path.join(ctx["verif"], "fuzz", "dict.txt"), "-seed=%d" % seed, "-artifact_prefix=" + art,
            "-print_final_stats=1", "-verbosity=1", "-reload=0", "-report_slow_units=100000", corpus, seeds]
     log = os.path.join(workdir, "fuzz-%s.log" % target)
@@ -80,7 +85,7 @@ def run(ctx):
     os.makedirs(evid_replay, exist_ok=True)
     for rnd in range(ROUNDS[tier]):
         with ThreadPoolExecutor(max_workers=max(1, min(len(TARGETS), ctx["jobs"]))) as ex:
-            futs = [ex.submit(fuzz_one, ctx, exe, t, RUNS[tier], seed * 1000 + rnd * 17 + i + 1, ctx["workdir"], corpus_root)
+            futs = [ex.submit(fuzz_one, ctx, exe, t, int(RUNS[tier] * RUNS_SCALE.get(tier, {}).get(t, 1)), seed * 1000 + rnd * 17 + i + 1, ctx["workdir"], corpus_root)
                     for i, t in enumerate(TARGETS)]
             for f in futs:
                 target, st, text, arts = f.result()
@@ -118,8 +123,8 @@ def run(ctx):
     with acc.lock:
         acc.evaluations += total_exec
         acc.clause["libfuzzer.executions"] = total_exec
-    return {"libfuzzer": {"runs_per_target_per_round": RUNS[tier], "rounds": ROUNDS[tier], "per_target": stats,
-                          "options": "-max_len=4096 -timeout=60 -rss_limit_mb=2560 -malloc_limit_mb=1024 -dict=fuzz/dict.txt",
+    return {"libfuzzer": {"runs_per_target_per_round": RUNS[tier], "runs_scale": RUNS_SCALE.get(tier, {}), "rounds": ROUNDS[tier], "per_target": stats,
+                          "options": "-max_len=4096 (formula: 1024) -timeout=60 -rss_limit_mb=2560 -malloc_limit_mb=1024 -dict=fuzz/dict.txt",
                           "build": "clang++-14 -fsanitize=fuzzer,address,undefined -fno-sanitize-recover=all"}}
 
 
